@@ -31,14 +31,14 @@ func (s *State) CAS(old, new int32) bool {
 	return atomic.CompareAndSwapInt32((*int32)(s), old, new)
 }
 
-func (s State) IsRunning() bool {
+func (s *State) IsRunning() bool {
 	return s.Get() == StateRunning
 }
 
-func (s State) IsShuttingDown() bool {
+func (s *State) IsShuttingDown() bool {
 	return s.Get() == StateShutdown
 }
 
-func (s State) IsTerminated() bool {
+func (s *State) IsTerminated() bool {
 	return s.Get() == StateTerminated
 }
